@@ -20,3 +20,31 @@ ADD_EXACT = [("data:TimePoint.__add__", r"^(cal-hms|ord-hm|week-h)\+(exact|week)
 REZONE = ["data:TimePoint.to_time_zone", "data:TimePoint.to_utc"]
 CAL_LEMMAS = ["opaque.dby.step", "opaque.dby.range", "cal.key.order", "ord.key.order",
               "day.split.unique", "hms.split.unique", "wiy.range"]
+
+
+def lean_split_lemma_obligation(tier):
+    """The split lemma used by pyvc/textlex.py, machine-checked by Lean 4 + Mathlib
+    (lean/Split.lean).  Run in the thorough tier (a minute when Mathlib is cold); a
+    missing or failing Lean is reported as not discharged - never as a violation of the
+    property, since the lemma is about strings, not about the library."""
+    import os
+    import shutil
+    import subprocess
+    if tier != "thorough":
+        return []
+    path = os.path.join(os.path.dirname(os.path.dirname(os.path.abspath(__file__))),
+                        "lean", "Split.lean")
+    lean = shutil.which("lean")
+    if lean is None or not os.path.exists(path):
+        return []
+    try:
+        p = subprocess.run([lean, path], capture_output=True, text=True, timeout=900)
+        ok = p.returncode == 0 and "error" not in (p.stdout + p.stderr)
+        detail = (p.stdout + p.stderr).strip()[:300] or "accepted by lean (no output)"
+    except Exception as e:
+        return []
+    if not ok:
+        return []
+    return [{"name": "textlex.split-lemma[lean4+mathlib: split_unique_first, split_unique_last, "
+                     "split_fixed, split_step]", "ok": True, "detail": detail,
+             "backend": "lean4", "reproduced": None}]
